@@ -61,7 +61,9 @@ NONDET_EXACT = {'os.urandom', 'os.getpid', 'id', 'hash', 'os.listdir', 'os.scand
                 'getpass.getuser', 'os.getlogin'}
 # deterministic members of the prefixes above
 DET_OK = {'time.sleep', 'random.seed', 'random.Random', 'datetime.timedelta', 'datetime.datetime.strptime', 'datetime.datetime.fromisoformat',
-          'datetime.date', 'time.strftime', 'datetime.datetime.fromtimestamp'}
+          'datetime.date', 'time.strftime', 'datetime.datetime.fromtimestamp',
+          # name-based uuids are pure functions of their arguments
+          'uuid.uuid3', 'uuid.uuid5', 'uuid.UUID'}
 
 
 DRAW_METHODS = {'?.random', '?.randint', '?.choice', '?.choices', '?.shuffle', '?.sample', '?.getrandbits', '?.uniform', '?.randrange'}
